@@ -98,10 +98,33 @@ Definition drained_buckets (raw : list (N * N)) : list (N * N) :=
 
 (* ---------------------------------------------------------------- unit.rs *)
 
-(* metrics::Unit as a code: 0 = no unit given, 1.. in declaration order; the result is the Debug rendering
-   of the metrique unit (the harness prints the real value the same way) *)
-Definition unit_none : bytes := [78; 111; 110; 101].      (* "None" *)
-Definition str (s : list N) := s.
+(* metrics::Unit as a code: 0 = no unit given (None), 1.. = the variants in declaration order (Count,
+   Percent, Seconds, Milliseconds, Microseconds, Nanoseconds, Tebibytes, Gibibytes, Mebibytes, Kibibytes,
+   Bytes, TerabitsPerSecond, GigabitsPerSecond, MegabitsPerSecond, KilobitsPerSecond, BitsPerSecond,
+   CountPerSecond).  metrics_024_unit_to_metrique_unit, with the metrique unit written as its Debug text
+   (the harness prints the real value the same way). *)
+Definition unit_debug (code : N) : bytes :=
+  match code with
+  | 0 => [78; 111; 110; 101]   (* None *)
+  | 1 => [67; 111; 117; 110; 116]   (* Count *)
+  | 2 => [80; 101; 114; 99; 101; 110; 116]   (* Percent *)
+  | 3 => [83; 101; 99; 111; 110; 100; 40; 79; 110; 101; 41]   (* Second(One) *)
+  | 4 => [83; 101; 99; 111; 110; 100; 40; 77; 105; 108; 108; 105; 41]   (* Second(Milli) *)
+  | 5 => [83; 101; 99; 111; 110; 100; 40; 77; 105; 99; 114; 111; 41]   (* Second(Micro) *)
+  | 6 => [67; 117; 115; 116; 111; 109; 40; 34; 78; 97; 110; 111; 115; 101; 99; 111; 110; 100; 115; 34; 41]   (* Custom("Nanoseconds") *)
+  | 7 => [67; 117; 115; 116; 111; 109; 40; 34; 84; 101; 98; 105; 98; 121; 116; 101; 115; 34; 41]   (* Custom("Tebibytes") *)
+  | 8 => [67; 117; 115; 116; 111; 109; 40; 34; 71; 105; 98; 105; 98; 121; 116; 101; 115; 34; 41]   (* Custom("Gibibytes") *)
+  | 9 => [67; 117; 115; 116; 111; 109; 40; 34; 77; 101; 98; 105; 98; 121; 116; 101; 115; 34; 41]   (* Custom("Mebibytes") *)
+  | 10 => [67; 117; 115; 116; 111; 109; 40; 34; 75; 105; 98; 105; 98; 121; 116; 101; 115; 34; 41]   (* Custom("Kibibytes") *)
+  | 11 => [66; 121; 116; 101; 40; 79; 110; 101; 41]   (* Byte(One) *)
+  | 12 => [66; 105; 116; 80; 101; 114; 83; 101; 99; 111; 110; 100; 40; 84; 101; 114; 97; 41]   (* BitPerSecond(Tera) *)
+  | 13 => [66; 105; 116; 80; 101; 114; 83; 101; 99; 111; 110; 100; 40; 71; 105; 103; 97; 41]   (* BitPerSecond(Giga) *)
+  | 14 => [66; 105; 116; 80; 101; 114; 83; 101; 99; 111; 110; 100; 40; 77; 101; 103; 97; 41]   (* BitPerSecond(Mega) *)
+  | 15 => [66; 105; 116; 80; 101; 114; 83; 101; 99; 111; 110; 100; 40; 75; 105; 108; 111; 41]   (* BitPerSecond(Kilo) *)
+  | 16 => [66; 105; 116; 80; 101; 114; 83; 101; 99; 111; 110; 100; 40; 79; 110; 101; 41]   (* BitPerSecond(One) *)
+  | 17 => [67; 117; 115; 116; 111; 109; 40; 34; 67; 111; 117; 110; 116; 47; 83; 101; 99; 111; 110; 100; 34; 41]   (* Custom("Count/Second") *)
+  | _ => [63]
+  end.
 
 (* ---------------------------------------------------------------- state *)
 
